@@ -113,7 +113,7 @@ func zzIn(b byte, alphabet string) bool {
 // VerifH17cScopeSelection: the limit applied is the one configured for the longest matching path scope.
 func VerifH17cScopeSelection() {
 	ns := verifrt.IntRange("nscopes", 1, 3)
-	var scopes []httpserver.PathLimit
+	var scopes, written []httpserver.PathLimit
 	for i := 0; i < ns; i++ {
 		pl := verifrt.IntRange("slen", 0, 2)
 		p := "/" + verifrt.String("scope", pl)
@@ -121,6 +121,16 @@ func VerifH17cScopeSelection() {
 			verifrt.Assume(zzIn(p[j], "a/"))
 		}
 		scopes = addPathLimit(scopes, p, int64(10+i))
+		// the specification works on the scope paths as written (a later duplicate replaces the limit)
+		dup := false
+		for k := range written {
+			if written[k].Path == p {
+				written[k].Limit, dup = int64(10+i), true
+			}
+		}
+		if !dup {
+			written = append(written, httpserver.PathLimit{Path: p, Limit: int64(10 + i)})
+		}
 	}
 	SortPathLimits(scopes)
 	rl := verifrt.IntRange("rlen", 0, 3)
@@ -136,7 +146,7 @@ func VerifH17cScopeSelection() {
 	verifrt.Assert(next.ran == 1, "next-runs")
 	// specification: among scopes that match the request path, the longest path wins
 	bestLen, bestLimit, any := -1, int64(0), false
-	for _, s := range scopes {
+	for _, s := range written {
 		if httpserver.Path(rp).Matches(s.Path) {
 			any = true
 			if len(s.Path) > bestLen {
@@ -147,7 +157,7 @@ func VerifH17cScopeSelection() {
 	verifrt.Assert(next.had == any, "limit-applied-iff-scope-matches")
 	if any {
 		ambiguous := false
-		for _, s := range scopes {
+		for _, s := range written {
 			if httpserver.Path(rp).Matches(s.Path) && len(s.Path) == bestLen && s.Limit != bestLimit {
 				ambiguous = true
 			}
